@@ -124,7 +124,7 @@ def h_search(eng, fn, nmax, depth, with_d, fixed_n=None, vary_bounds=True, built
             case['result'] = show(rt)
             unrelated = not w.sub(rt, base) and not w.sub(base, rt)
             if qt[0] == 'V' and (qt[2] is None or w.is_top(qt[2])):
-                unrelated = True        # unbounded variable: any regular type is acceptable (nothing is unrelated to top)
+                unrelated = not w.is_top(rt)     # unbounded variable: every type but the top type is unrelated to it
             inclass = w.in_exact_class(base) and w.in_exact_class(rt)
             obs.append(Ob('irrelevant|%s|query=%s,result=%s' % (
                 'unrelated' if inclass else 'unrelated-outside-exactness-class', qshape, _shape(w, rt)), unrelated, case))
